@@ -3,6 +3,7 @@ package rules
 import (
 	"fmt"
 	"go/ast"
+	"go/constant"
 	"go/token"
 	"go/types"
 	"sort"
@@ -1100,4 +1101,463 @@ func PodReplacementInvalidates(p *core.Program, r *core.Report, rule string) {
 	}
 	r.RuleCounts[rule] = n
 	r.Floor(rule, 2)
+}
+
+// InvalidationMatchesByContainment is C15-inv-match. When the last pod of an owner goes (or a pod object is replaced) the
+// cache removes the results of that owner by scanning its keys. A cache key is `<owner key of src>/<owner key of dst>/
+// <protocol>/<port>`, every part of which may itself contain the separator; the one predicate that finds every key an
+// owner takes part in, whatever the layout, is containment of the owner key. It removes too much at worst (a longer owner
+// key that contains this one), never too little. A narrower predicate (prefix / suffix after stripping "the connection",
+// a split and compare) has to agree with how keyPerConnection lays the key out, and an entry that survives the deletion
+// of its workload is served to the next workload of that name: so in a loop over the keys of the lru, a Remove is guarded
+// by strings.Contains(<the key>, <owner key>) and by nothing else.
+func InvalidationMatchesByContainment(p *core.Program, r *core.Report, rule string) {
+	n := 0
+	for _, m := range p.Methods(core.PkgEval, "evalCache") {
+		info := m.Pkg.TypesInfo
+		ast.Inspect(m.Decl.Body, func(nd ast.Node) bool {
+			rs, ok := nd.(*ast.RangeStmt)
+			if !ok {
+				return true
+			}
+			// a loop over <lru>.Keys() (directly or through a local)
+			x := ast.Unparen(ResolveLocal(info, m.Decl.Body, rs.X))
+			c, isCall := x.(*ast.CallExpr)
+			if !isCall {
+				return true
+			}
+			if fn := core.Callee(info, c); fn == nil || fn.Name() != "Keys" || fn.Pkg() == nil || !strings.Contains(fn.Pkg().Path(), "golang-lru") {
+				return true
+			}
+			ast.Inspect(rs.Body, func(x2 ast.Node) bool {
+				rc, isC := x2.(*ast.CallExpr)
+				if !isC {
+					return true
+				}
+				if fn := core.Callee(info, rc); fn == nil || fn.Name() != "Remove" || fn.Pkg() == nil || !strings.Contains(fn.Pkg().Path(), "golang-lru") {
+					return true
+				}
+				n++
+				fm, _, found := FactsAt(m, rc, nil)
+				bad := ""
+				contains := false
+				if !found {
+					bad = "the path condition of the Remove could not be computed"
+				} else {
+					fmLoop, _, _ := FactsAt(m, rs, nil)
+					for _, a := range facts.Atoms(fm) {
+						pos, neg := facts.Entails(fm, facts.Atom(a)), facts.Entails(fm, facts.MkNot(facts.Atom(a)))
+						if !pos && !neg {
+							continue
+						}
+						if fmLoop != nil && (facts.Entails(fmLoop, facts.Atom(a)) || facts.Entails(fmLoop, facts.MkNot(facts.Atom(a)))) {
+							continue // decided before the scan started (e.g. "no pods are left for this owner"), not per key
+						}
+						sa := facts.StripVersions(a)
+						if strings.HasPrefix(sa, "nil:") {
+							continue // nil tests of the cache itself
+						}
+						if pos && strings.HasPrefix(sa, "b:strings.Contains(") {
+							contains = true
+							continue
+						}
+						if bad == "" {
+							bad = "the removal also depends on " + sa
+						}
+					}
+				}
+				if bad == "" && !contains {
+					bad = "the removal is not guarded by strings.Contains(<cache key>, <owner key>)"
+				}
+				r.Check(bad == "", rule, m.Key()+": cached results of an owner are found by containment of the owner key", p.Pos(rc.Pos()), "strings.Contains(cacheKey, ownerKey)",
+					bad+": a predicate narrower than containment has to agree with the layout of the key (owner keys and the connection part contain the separator themselves); a result that survives the deletion of its workload is served to the next workload of that name")
+				return true
+			})
+			return true
+		})
+	}
+	r.RuleCounts[rule] = n
+	r.Floor(rule, 1)
+}
+
+// IngressAnalyzerEmptiness is C16-ia-empty (also a condition of C10). The ingress analyzer "has nothing to say" exactly
+// when there is no Service, or there is neither a Route nor an Ingress: IsEmpty() <=> noServices | (noRoutes & noIngresses).
+// connlist asks it to decide whether the ingress-controller pod is added and whether `--focusworkload ingress-controller`
+// names something that exists (an empty result must come with the warning). Decided as a formula: the disjunction over
+// the exits of IsEmpty of (path condition & returned condition) is equivalent to that table over the three emptiness
+// atoms - whatever the shape; a sum of lengths compared with zero, or a dropped disjunct, is not.
+func IngressAnalyzerEmptiness(p *core.Program, r *core.Report, rule string) {
+	fd := p.Func(core.PkgIngress, "IngressAnalyzer", "IsEmpty")
+	if fd == nil {
+		r.Lost(rule, "(*IngressAnalyzer).IsEmpty")
+		return
+	}
+	info := fd.Pkg.TypesInfo
+	var answer facts.Formula = facts.False{}
+	w := facts.NewWalker(info)
+	w.Inline = true
+	w.OnStmt = func(s ast.Stmt, f facts.Formula) {
+		ret, ok := s.(*ast.ReturnStmt)
+		if !ok || w.FuncLitDepth > 0 || len(ret.Results) != 1 {
+			return
+		}
+		answer = facts.MkOr(answer, facts.MkAnd(f, w.Cond(ret.Results[0])))
+	}
+	w.WalkBody(fd.Decl.Body, nil)
+	find := func(field string) facts.Formula {
+		for _, a := range facts.Atoms(answer) {
+			sa := facts.StripVersions(a)
+			if strings.HasPrefix(sa, "eq:len(") && strings.HasSuffix(sa, "."+field+")==0") {
+				return facts.Atom(a)
+			}
+			if strings.HasPrefix(sa, "empty:") && strings.HasSuffix(sa, "."+field) {
+				return facts.Atom(a)
+			}
+		}
+		return nil
+	}
+	s, ro, in := find("servicesToPortsAndPeersMap"), find("routesToServicesMap"), find("k8sIngressToServicesMap")
+	ok := s != nil && ro != nil && in != nil
+	if ok {
+		want := facts.Or{L: s, R: facts.And{L: ro, R: in}}
+		ok = facts.Equivalent(facts.True{}, answer, want)
+	}
+	r.Check(ok, rule, fd.Key()+": empty iff no services, or neither routes nor ingresses", p.Pos(fd.Decl.Pos()), "",
+		"IsEmpty() is "+facts.StripVersions(facts.String(answer))+", not `no services | (no routes & no ingresses)`: with Services but no Ingress/Route (or the reverse) the analyzer counts as non-empty, the ingress-controller pod is taken to exist, and a focus on it returns an empty report without the warning")
+}
+
+// PriorityRangeBothBounds is C19-range: HasValidPriority accepts a priority only inside [MinANPPriority, MaxANPPriority] -
+// both bounds. The API type's validation marker only acts on an API server; manifests read from a directory can carry any
+// value, and a negative priority would sort first and silently get the highest precedence. Decided as a formula: the
+// function's answer entails both `priority >= Min` and `priority <= Max` (any spelling of the two comparisons).
+func PriorityRangeBothBounds(p *core.Program, r *core.Report, rule string) {
+	fd := p.Func(core.PkgK8s, "AdminNetworkPolicy", "HasValidPriority")
+	if fd == nil {
+		r.Lost(rule, "(*AdminNetworkPolicy).HasValidPriority")
+		return
+	}
+	info := fd.Pkg.TypesInfo
+	lo, hi := false, false
+	// every comparison of the priority field with a constant, with the sense in which it appears in a positive answer
+	var answer facts.Formula = facts.False{}
+	cmpOf := map[string]string{} // atom -> "lo" / "hi"
+	w := facts.NewWalker(info)
+	w.Atomize = func(w *facts.Walker, e ast.Expr) facts.Formula {
+		be, ok := e.(*ast.BinaryExpr)
+		if !ok {
+			return nil
+		}
+		x, y, op := ast.Unparen(be.X), ast.Unparen(be.Y), be.Op
+		if _, isC := constInt64(info, x); isC {
+			x, y = y, x
+			switch op {
+			case token.LSS:
+				op = token.GTR
+			case token.GTR:
+				op = token.LSS
+			case token.LEQ:
+				op = token.GEQ
+			case token.GEQ:
+				op = token.LEQ
+			}
+		}
+		if !fieldPathEndsWith(info, x, "AdminNetworkPolicySpec", "Priority") {
+			return nil
+		}
+		v, isC := constInt64(info, y)
+		if !isC {
+			return nil
+		}
+		minV, maxV := int64(0), int64(1000)
+		if pk := p.ByPath[core.PkgCommon]; pk != nil {
+			if c, ok := pk.Types.Scope().Lookup("MinANPPriority").(*types.Const); ok {
+				minV, _ = constInt64FromConst(c)
+			}
+			if c, ok := pk.Types.Scope().Lookup("MaxANPPriority").(*types.Const); ok {
+				maxV, _ = constInt64FromConst(c)
+			}
+		}
+		switch {
+		case (op == token.GEQ && v == minV) || (op == token.GTR && v == minV-1):
+			cmpOf["prio>=min"] = "lo"
+			return facts.Atom("prio>=min")
+		case (op == token.LSS && v == minV) || (op == token.LEQ && v == minV-1):
+			cmpOf["prio>=min"] = "lo"
+			return facts.MkNot(facts.Atom("prio>=min"))
+		case (op == token.LEQ && v == maxV) || (op == token.LSS && v == maxV+1):
+			cmpOf["prio<=max"] = "hi"
+			return facts.Atom("prio<=max")
+		case (op == token.GTR && v == maxV) || (op == token.GEQ && v == maxV+1):
+			cmpOf["prio<=max"] = "hi"
+			return facts.MkNot(facts.Atom("prio<=max"))
+		}
+		return nil
+	}
+	w.OnStmt = func(s ast.Stmt, f facts.Formula) {
+		ret, ok := s.(*ast.ReturnStmt)
+		if !ok || w.FuncLitDepth > 0 || len(ret.Results) != 1 {
+			return
+		}
+		answer = facts.MkOr(answer, facts.MkAnd(f, w.Cond(ret.Results[0])))
+	}
+	w.WalkBody(fd.Decl.Body, nil)
+	lo = facts.Entails(answer, facts.Atom("prio>=min")) && cmpOf["prio>=min"] != ""
+	hi = facts.Entails(answer, facts.Atom("prio<=max")) && cmpOf["prio<=max"] != ""
+	r.Check(lo && hi && facts.Satisfiable(answer), rule, fd.Key()+": a priority is valid only inside [MinANPPriority, MaxANPPriority]", p.Pos(fd.Decl.Pos()), "",
+		fmt.Sprintf("a positive answer of HasValidPriority does not imply both bounds (lower bound implied: %v, upper bound implied: %v): an AdminNetworkPolicy with an out-of-range priority is accepted, sorted, and takes precedence accordingly", lo, hi))
+}
+
+func constInt64FromConst(c *types.Const) (int64, bool) {
+	return constant.Int64Val(c.Val())
+}
+
+// OwnerLabelsComparedCompletely is C19-labels: the comparison that rejects pods of one owner with different labels looks
+// at every key of both label maps: its loops skip nothing (no continue, no filter on the key). A key that is left out of
+// the comparison lets two pods that differ in it be merged into one workload silently - and policies may select by it.
+func OwnerLabelsComparedCompletely(p *core.Program, r *core.Report, rule string) {
+	fd := p.Func(core.PkgEval, "", "diffBetweenPodsLabels")
+	if fd == nil {
+		r.Lost(rule, "eval.diffBetweenPodsLabels")
+		return
+	}
+	info := fd.Pkg.TypesInfo
+	n := 0
+	bad := ""
+	w := facts.NewWalker(info)
+	w.OnBranch = func(b *ast.BranchStmt, states uint64, f facts.Formula) {
+		if len(w.Loops) > 0 && b.Tok == token.CONTINUE && bad == "" {
+			bad = fmt.Sprintf("the loop is continued at %s under %s", p.Pos(b.Pos()), facts.StripVersions(facts.String(f)))
+		}
+	}
+	w.WalkBody(fd.Decl.Body, nil)
+	ast.Inspect(fd.Decl.Body, func(nd ast.Node) bool {
+		rs, ok := nd.(*ast.RangeStmt)
+		if !ok {
+			return true
+		}
+		if se, isSe := ast.Unparen(rs.X).(*ast.SelectorExpr); isSe && se.Sel.Name == "Labels" {
+			n++
+			// a comparison in the body that sits under a test of the key other than a lookup in the other map
+			key, _ := rs.Key.(*ast.Ident)
+			ast.Inspect(rs.Body, func(x ast.Node) bool {
+				ifs, isIf := x.(*ast.IfStmt)
+				if !isIf || key == nil || bad != "" {
+					return true
+				}
+				ast.Inspect(ifs.Cond, func(y ast.Node) bool {
+					c, isCall := y.(*ast.CallExpr)
+					if !isCall {
+						return true
+					}
+					for _, a := range c.Args {
+						if id, isID := ast.Unparen(a).(*ast.Ident); isID && info.ObjectOf(id) == info.ObjectOf(key) {
+							bad = fmt.Sprintf("the key is tested by %s at %s", core.ExprStr(c), p.Pos(c.Pos()))
+						}
+					}
+					return true
+				})
+				return true
+			})
+		}
+		return true
+	})
+	r.Check(bad == "" && n >= 2, rule, fd.Key()+": every label key of both pods is compared", p.Pos(fd.Decl.Pos()), "",
+		"the comparison of the labels of two pods of one owner leaves keys out ("+bad+"): pods that differ only in such a key are merged into one workload without an error, although a policy may select by that key")
+}
+
+// AdminCheckUnderSubjectSelection is C03-subject: on the eval path the rules of an (Baseline)AdminNetworkPolicy are
+// consulted for a pair only when the policy's subject selects the pod the direction is about - the destination for
+// ingress, the source for egress - exactly as the list path does. Every call of Check{Ingress,Egress}ConnAllowed is
+// either on a path that entails a positive `<policy>.Selects(<peer>, <isIngress>)` with the matching direction constant,
+// or the callee makes that test itself (a Selects call on one of its parameters with the matching constant, whose
+// negative outcome returns). Folding the test into one of the two callees only leaves the other direction unguarded.
+func AdminCheckUnderSubjectSelection(p *core.Program, r *core.Report, rule string) {
+	n := 0
+	calleeGuards := func(g *core.FuncDecl, ingress bool) bool {
+		if g == nil {
+			return false
+		}
+		ginfo := g.Pkg.TypesInfo
+		want := "false"
+		if ingress {
+			want = "true"
+		}
+		guards := false
+		gw := facts.NewWalker(ginfo)
+		selAtoms := map[string]bool{}
+		gw.OnExpr = func(e ast.Expr, f facts.Formula) {
+			c, ok := e.(*ast.CallExpr)
+			if !ok || len(c.Args) != 2 {
+				return
+			}
+			if fn := core.Callee(ginfo, c); fn == nil || core.RefName(fn) != "Selects" {
+				return
+			}
+			if v, isC := core.ConstString(ginfo, c.Args[1]); !isC || v != want {
+				return
+			}
+			selAtoms[core.ExprStr(c)] = true
+		}
+		gw.OnStmt = func(s ast.Stmt, f facts.Formula) {
+			if _, isRet := s.(*ast.ReturnStmt); !isRet || len(selAtoms) == 0 {
+				return
+			}
+			// a return on a path where the selection result (a local bound to the call) is known to be false
+			for _, a := range facts.Atoms(f) {
+				if strings.HasPrefix(a, "b:") && facts.Entails(f, facts.MkNot(facts.Atom(a))) && strings.Contains(strings.ToLower(a), "select") {
+					guards = true
+				}
+			}
+		}
+		gw.WalkBody(g.Decl.Body, nil)
+		return guards
+	}
+	for _, fd := range p.FuncsIn(core.PkgEval) {
+		info := fd.Pkg.TypesInfo
+		// locals bound to a Selects call: object -> (peer text, direction constant)
+		type sel struct{ peer, dir string }
+		selVars := map[types.Object]sel{}
+		ast.Inspect(fd.Decl.Body, func(nd ast.Node) bool {
+			as, ok := nd.(*ast.AssignStmt)
+			if !ok || len(as.Rhs) != 1 || len(as.Lhs) < 1 {
+				return true
+			}
+			c, isCall := ast.Unparen(as.Rhs[0]).(*ast.CallExpr)
+			if !isCall || len(c.Args) != 2 {
+				return true
+			}
+			if fn := core.Callee(info, c); fn == nil || core.RefName(fn) != "Selects" {
+				return true
+			}
+			dir, _ := core.ConstString(info, c.Args[1])
+			if id, isID := as.Lhs[0].(*ast.Ident); isID {
+				selVars[info.ObjectOf(id)] = sel{core.ExprStr(c.Args[0]), dir}
+			}
+			return true
+		})
+		w := facts.NewWalker(info)
+		w.OnExpr = func(e ast.Expr, f facts.Formula) {
+			c, ok := e.(*ast.CallExpr)
+			if !ok {
+				return
+			}
+			fn := core.Callee(info, c)
+			if fn == nil {
+				return
+			}
+			name := core.RefName(fn)
+			if name != "CheckIngressConnAllowed" && name != "CheckEgressConnAllowed" {
+				return
+			}
+			rt := core.RecvTypeName(fn.Type().(*types.Signature))
+			if rt != "AdminNetworkPolicy" && rt != "BaselineAdminNetworkPolicy" {
+				return
+			}
+			ingress := name == "CheckIngressConnAllowed"
+			want := "false"
+			if ingress {
+				want = "true"
+			}
+			n++
+			ok2 := false
+			for o, sv := range selVars {
+				if v, isVar := o.(*types.Var); isVar && sv.dir == want && facts.Entails(f, facts.Atom("b:"+w.PathOfVar(v))) {
+					ok2 = true
+				}
+			}
+			if !ok2 {
+				for _, g := range p.Impls(fn) {
+					if calleeGuards(p.ByObj[g], ingress) {
+						ok2 = true
+					}
+				}
+			}
+			r.Check(ok2, rule, fmt.Sprintf("%s: %s.%s is consulted only for a pod the policy's subject selects", fd.Key(), rt, name), p.Pos(c.Pos()), "",
+				"the rules of the policy are applied to a pair although nothing on this path (or in the callee) established that its subject selects the "+map[bool]string{true: "destination", false: "source"}[ingress]+": eval applies the policy to pods it does not select, list does not")
+		}
+		w.WalkBody(fd.Decl.Body, nil)
+	}
+	r.RuleCounts[rule] = n
+	r.Floor(rule, 2)
+}
+
+// SearchResultIndexGuarded is E2-N13 (C12): the position returned by a search (slices.Index / IndexFunc, strings.Index*,
+// bytes.Index*) is -1 when nothing is found; used as an index or a slice bound it must sit on a path on which that case
+// is excluded (a comparison of the variable with -1 or 0 decided on the path). Otherwise an input without a match -
+// typically a dangling cross reference between two manifests - is an index-out-of-range panic instead of an empty result.
+func SearchResultIndexGuarded(p *core.Program, r *core.Report, rule string) {
+	n := 0
+	isSearch := func(fn *types.Func) bool {
+		if fn == nil || fn.Pkg() == nil {
+			return false
+		}
+		switch fn.Pkg().Path() {
+		case "slices", "strings", "bytes":
+			return strings.HasPrefix(fn.Name(), "Index") || strings.HasPrefix(fn.Name(), "LastIndex")
+		}
+		return false
+	}
+	for _, fd := range p.Funcs {
+		info := fd.Pkg.TypesInfo
+		found := map[types.Object]string{}
+		ast.Inspect(fd.Decl.Body, func(nd ast.Node) bool {
+			as, ok := nd.(*ast.AssignStmt)
+			if !ok || len(as.Lhs) != 1 || len(as.Rhs) != 1 {
+				return true
+			}
+			c, isCall := ast.Unparen(as.Rhs[0]).(*ast.CallExpr)
+			if !isCall || !isSearch(core.Callee(info, c)) {
+				return true
+			}
+			if id, isID := as.Lhs[0].(*ast.Ident); isID {
+				found[info.ObjectOf(id)] = core.ExprStr(c.Fun)
+			}
+			return true
+		})
+		if len(found) == 0 {
+			continue
+		}
+		w := facts.NewWalker(info)
+		w.OnExpr = func(e ast.Expr, f facts.Formula) {
+			var used []ast.Expr
+			switch x := e.(type) {
+			case *ast.IndexExpr:
+				used = []ast.Expr{x.Index}
+			case *ast.SliceExpr:
+				used = []ast.Expr{x.Low, x.High}
+			default:
+				return
+			}
+			for _, u := range used {
+				if u == nil {
+					continue
+				}
+				id, ok := ast.Unparen(u).(*ast.Ident)
+				if !ok {
+					continue
+				}
+				o := info.ObjectOf(id)
+				how, isFound := found[o]
+				if !isFound {
+					continue
+				}
+				n++
+				v := o.(*types.Var)
+				path := w.PathOfVar(v)
+				guarded := false
+				for _, a := range facts.Atoms(f) {
+					if !strings.Contains(a, path) {
+						continue
+					}
+					if facts.Entails(f, facts.Atom(a)) || facts.Entails(f, facts.MkNot(facts.Atom(a))) {
+						guarded = true // a comparison of the position decided on this path
+					}
+				}
+				r.Check(guarded, rule, fmt.Sprintf("%s: the position found by %s is used as an index only where a match is known", fd.Key(), how), p.Pos(e.Pos()), "",
+					"the result of "+how+" is used as an index / bound without a test for -1 on the path: with no match (e.g. a reference to something the input does not declare) this is an index-out-of-range panic")
+			}
+		}
+		w.WalkBody(fd.Decl.Body, nil)
+	}
+	r.RuleCounts[rule] = n
 }
